@@ -184,6 +184,27 @@ def build_biglist_inputs(cache_dir):
     return inputs
 
 
+def build_estimator_inputs(cache_dir):
+    """extension beyond the listed property: the cached estimator vectors of ErrorEstimator (same cache protocol, the
+    store is not wrapped in a try); deviations are reported as SPEC-DRIFT only"""
+    setup_path()
+    from src.error_estimator import ErrorEstimator
+    from src.mesh import MeshParametrized
+    from src.parametrization import UnitSquare
+    with contextlib.redirect_stdout(io.StringIO()):
+        m = MeshParametrized(UnitSquare())
+        for e in list(m.leaf_elements):
+            m.refine(e)
+        est = ErrorEstimator(m, N_poly=5, cache_dir=cache_dir)
+    el = list(m.leaf_elements)
+    res = lambda t, xh, gm: (1 + np.asarray(t, float)) * np.sin(gm(np.asarray(xh, float))[0])
+    inputs = {}
+    for name, es in (("e1", el), ("e2", el[:9])):
+        inputs[name] = {"call": (lambda es=es: (lambda mp: est.estimate_weighted_l2(es, res, use_mp=mp)))(),
+                        "ref": np.array([est.weighted_l2(e, res) for e in es], dtype=float)}
+    return inputs
+
+
 def execute(ctx, scripts, inputs, names, small, has_inline, rng, tag):
     """run the scripts on the real code, judge, report"""
     cache_dir = inputs["_dir"]
@@ -214,8 +235,8 @@ def execute(ctx, scripts, inputs, names, small, has_inline, rng, tag):
     for l, clause in bad:
         si, ev = meta[l - 1]
         hist = [e for (s, e) in meta[:l] if s == si and e is not None]
-        if clause.startswith("d:"):
-            ctx.spec_drift("%s: %s at %r" % (tag, clause, events[l - 1]))
+        if clause.startswith("d:") or tag.startswith("extension"):
+            ctx.spec_drift("%s: %s at %r" % (tag, clause, {k: v for k, v in events[l - 1].items() if k != "disk"}))
             continue
         e = events[l - 1]
         key = "%s:%s:%s" % (clause, tag, e.get("path") or e["k"])
@@ -293,6 +314,14 @@ def run(prop, tier, seed):
             st, ev = execute(ctx, script, bi, names, set(), False, rng, "biglist")
             runs.append(st)
             ctx.log("replay %s" % st)
+        # extension: cached estimator vectors follow the same protocol (diagnostic only)
+        edir = os.path.join(tmp, "e")
+        os.makedirs(edir)
+        ei = build_estimator_inputs(edir)
+        ei["_dir"] = edir
+        st, ev = execute(ctx, fixed_scripts(["e1", "e2"], set(), al.KINDS[:3], (1, 2))[:2], ei, ["e1", "e2"], set(), False, rng, "extension:estimator-cache")
+        runs.append(st)
+        ctx.log("replay %s" % st)
         # binding self-test: flipping an equality flag / a disk projection must be rejected
         import copy
         a = copy.deepcopy([e for e in all_events[:12]])
